@@ -78,7 +78,7 @@ func extractPartition(repo string) (map[string]string, error) {
 			return nil, fmt.Errorf("%s: %v", it[1], err)
 		}
 		fmt.Fprintf(&b, "def %sReturn : String := %s\n", it[0], goast.LeanString(ret))
-		fmt.Fprintf(&b, "def %sSkeleton : List String := %s\n", it[0], goast.LeanStringList(goast.Skeleton(fd)))
+		fmt.Fprintf(&b, "def %sSkeleton : List String := %s\n", it[0], goast.LeanStringList(partNormSkeleton(goast.Skeleton(fd))))
 	}
 
 	// --- constructors ----------------------------------------------------------------------------
@@ -90,7 +90,7 @@ func extractPartition(repo string) (map[string]string, error) {
 		if err != nil {
 			return nil, err
 		}
-		fmt.Fprintf(&b, "def %s : List String := %s\n", it[0], goast.LeanStringList(partParamsAndFields(fd)))
+		fmt.Fprintf(&b, "def %s : List String := %s\n", it[0], goast.LeanStringList(partParamsAndFieldsIn(pf, fd)))
 	}
 
 	// --- session.go ------------------------------------------------------------------------------
@@ -188,7 +188,39 @@ func partSingleReturn(fd *ast.FuncDecl) (string, error) {
 	if !ok || len(rs.Results) != 1 {
 		return "", fmt.Errorf("body is not a single-value return")
 	}
-	return goast.ExprString(rs.Results[0]), nil
+	return goast.ExprString(partNorm(rs.Results[0])), nil
+}
+
+// partNorm rewrites semantically identical spellings to one form, so that a harmless respelling does
+// not break the `Generated = Expected` obligations: strings.HasPrefix(a, b) ≡ strings.Index(a, b) == 0.
+func partNorm(e ast.Expr) ast.Expr {
+	switch x := e.(type) {
+	case *ast.ParenExpr:
+		return &ast.ParenExpr{X: partNorm(x.X)}
+	case *ast.UnaryExpr:
+		return &ast.UnaryExpr{Op: x.Op, X: partNorm(x.X)}
+	case *ast.BinaryExpr:
+		return &ast.BinaryExpr{X: partNorm(x.X), Op: x.Op, Y: partNorm(x.Y)}
+	case *ast.CallExpr:
+		args := make([]ast.Expr, len(x.Args))
+		for i, a := range x.Args {
+			args[i] = partNorm(a)
+		}
+		if goast.ExprString(x.Fun) == "strings.HasPrefix" && len(args) == 2 {
+			idx := &ast.CallExpr{Fun: &ast.SelectorExpr{X: ast.NewIdent("strings"), Sel: ast.NewIdent("Index")}, Args: args}
+			return &ast.BinaryExpr{X: idx, Op: token.EQL, Y: &ast.BasicLit{Kind: token.INT, Value: "0"}}
+		}
+		return &ast.CallExpr{Fun: x.Fun, Args: args, Ellipsis: x.Ellipsis}
+	}
+	return e
+}
+
+func partNormSkeleton(sk []string) []string {
+	out := make([]string, len(sk))
+	for i, t := range sk {
+		out[i] = strings.ReplaceAll(t, "strings.HasPrefix", "strings.Index")
+	}
+	return out
 }
 
 // partReturns: all return statements of a function, in source order, printed compactly
@@ -210,15 +242,65 @@ func partReturns(fd *ast.FuncDecl) []string {
 
 // partParamsAndFields: "param:<name>" for every parameter in order, then "<path>.<field>=<expr>" for
 // every key/value of the (nested) composite literals in the body, in source order.
-func partParamsAndFields(fd *ast.FuncDecl) []string {
+func partParamsAndFields(fd *ast.FuncDecl) []string { return partParamsAndFieldsIn(nil, fd) }
+
+// partCtorLiteral: if `e` is a call g(a1..an) of a function of the same file whose body is exactly
+// `return T{...}`, the literal and the substitution parameter ↦ printed argument (a constructor
+// delegating to another constructor is the same field mapping as the inlined literal).
+func partCtorLiteral(pf *goast.File, e ast.Expr) (*ast.CompositeLit, map[string]string) {
+	call, ok := e.(*ast.CallExpr)
+	if !ok || pf == nil {
+		return nil, nil
+	}
+	id, ok := call.Fun.(*ast.Ident)
+	if !ok {
+		return nil, nil
+	}
+	g, err := pf.Func(id.Name)
+	if err != nil || g.Body == nil || len(g.Body.List) != 1 {
+		return nil, nil
+	}
+	rs, ok := g.Body.List[0].(*ast.ReturnStmt)
+	if !ok || len(rs.Results) != 1 {
+		return nil, nil
+	}
+	cl, ok := rs.Results[0].(*ast.CompositeLit)
+	if !ok {
+		return nil, nil
+	}
+	var params []string
+	for _, p := range g.Type.Params.List {
+		for _, n := range p.Names {
+			params = append(params, n.Name)
+		}
+	}
+	if len(params) != len(call.Args) {
+		return nil, nil
+	}
+	sub := map[string]string{}
+	for i, a := range call.Args {
+		sub[params[i]] = goast.ExprString(a)
+	}
+	return cl, sub
+}
+
+func partParamsAndFieldsIn(pf *goast.File, fd *ast.FuncDecl) []string {
 	var out []string
 	for _, p := range fd.Type.Params.List {
 		for _, n := range p.Names {
 			out = append(out, "param:"+n.Name+":"+goast.ExprString(p.Type))
 		}
 	}
-	var walk func(prefix string, e ast.Expr)
-	walk = func(prefix string, e ast.Expr) {
+	var walk func(prefix string, e ast.Expr, sub map[string]string)
+	val := func(e ast.Expr, sub map[string]string) string {
+		if id, ok := e.(*ast.Ident); ok && sub != nil {
+			if v, ok := sub[id.Name]; ok {
+				return v
+			}
+		}
+		return goast.ExprString(e)
+	}
+	walk = func(prefix string, e ast.Expr, sub map[string]string) {
 		cl, ok := e.(*ast.CompositeLit)
 		if !ok {
 			return
@@ -227,20 +309,22 @@ func partParamsAndFields(fd *ast.FuncDecl) []string {
 		for _, el := range cl.Elts {
 			kv, ok := el.(*ast.KeyValueExpr)
 			if !ok {
-				out = append(out, prefix+tn+".?="+goast.ExprString(el))
+				out = append(out, prefix+tn+".?="+val(el, sub))
 				continue
 			}
 			if _, nested := kv.Value.(*ast.CompositeLit); nested {
-				walk(prefix+tn+"."+goast.ExprString(kv.Key)+">", kv.Value)
+				walk(prefix+tn+"."+goast.ExprString(kv.Key)+">", kv.Value, sub)
+			} else if inner, isub := partCtorLiteral(pf, kv.Value); inner != nil && sub == nil {
+				walk(prefix+tn+"."+goast.ExprString(kv.Key)+">", inner, isub)
 			} else {
-				out = append(out, prefix+tn+"."+goast.ExprString(kv.Key)+"="+goast.ExprString(kv.Value))
+				out = append(out, prefix+tn+"."+goast.ExprString(kv.Key)+"="+val(kv.Value, sub))
 			}
 		}
 	}
 	if fd.Body != nil {
 		ast.Inspect(fd.Body, func(n ast.Node) bool {
 			if cl, ok := n.(*ast.CompositeLit); ok {
-				walk("", cl)
+				walk("", cl, nil)
 				return false
 			}
 			return true
